@@ -204,6 +204,11 @@ def handle (input impl : Json) : R Reply := do
     infoTag "restaged-on-newer-block" "script:restaged-on-newer-check-block" ++
     infoTag "older-check-ignored" "script:older-check-arrives-late" ++
     infoTag "at-ttl-boundary" "script:observation-at-ttl-boundary" ++
+    infoTag "history-burst" "script:history-views-queued-back-to-back" ++
+    infoTag "staged-at-a-collector-tick" "script:staged-at-a-collector-tick" ++
+    infoTag "proposal-reproposed-after-expiry" "proposal-reproposed-after-expiry" ++
+    (if c.nodes.any (fun n => n.view.staged.any (fun r => decide (r.workID.length > 64))) then ["work-ids-longer-than-64"] else []) ++
+    (if c.nodes.any (fun n => n.view.staged.any (fun r => c.ctx.utg r.upkeepID == .other)) then ["third-upkeep-type-staged"] else []) ++
     (if (info.get? "distinct-ids-in-window").getD 0 > 16384 then ["script:>2^14-work-ids-in-one-window"] else [])
   let nontrivial := c.nodes.any (fun n => decide (n.view.staged.length ≥ 2))
   pure { agree := agree, specModel := sm, specImpl := si, diff := diff, fail := fail,
